@@ -437,6 +437,26 @@ def _template(draw):
     return '/' + '/'.join(segs)
 
 
+@st.composite
+def _colliding_pair(draw):
+    """Two templates over the same literal skeleton: each generalises a different segment to a field and
+    then diverges, so that a lookup must abandon one branch (after matching a field in it) for the other."""
+    n = draw(st.integers(2, 4))
+    lits = [draw(_lit) for _ in range(n)]
+    i = draw(st.integers(0, n - 1))
+    j = draw(st.integers(0, n - 1))
+    a = list(lits)
+    b = list(lits)
+    a[i] = draw(st.sampled_from(['{f}', '{f:int}', '{f:ab}', 'x{f}', '{f}-{g}']))
+    b[j] = draw(st.sampled_from(['{h}', '{h:int}', '{h:ab}', '{h}.{k}']))
+    k = draw(st.integers(0, n - 1))
+    if k != i:
+        a[k] = draw(_lit)
+    if draw(st.booleans()):
+        a.append(draw(_lit))
+    return ['/' + '/'.join(a), '/' + '/'.join(b), '/' + '/'.join(lits)]
+
+
 _probe_seg = st.one_of(st.sampled_from(LITERALS + GENERIC + ['7', '12', '007', ' 7', 'xa', 'a-b', 'a.b', '7x12', 'ab', UUID_OK, 'a\\d', '1d']))
 _path = st.lists(_probe_seg, min_size=1, max_size=5).map(lambda s: '/' + '/'.join(s))
 
@@ -455,7 +475,18 @@ class Histories(Suite):
     def strategy(self, tier):
         add = st.tuples(st.just('add'), _template(), st.booleans())
         find = st.tuples(st.just('find'), _path)
-        return st.lists(st.one_of(add, add, add, find), min_size=1, max_size=12).map(lambda ops: {'ops': ops})
+        plain = st.lists(st.one_of(add, add, add, find), min_size=1, max_size=12)
+
+        def with_pair(ops, pair, flags, pos):
+            ops = list(ops)
+            a, b, lit_path = pair
+            ops.insert(min(pos[0], len(ops)), ('add', a, flags[0]))
+            ops.insert(min(pos[1], len(ops)), ('add', b, flags[1]))
+            ops.append(('find', lit_path))
+            return ops
+        paired = st.builds(with_pair, st.lists(st.one_of(add, find), max_size=6), _colliding_pair(),
+                           st.tuples(st.booleans(), st.booleans()), st.tuples(st.integers(0, 6), st.integers(0, 7)))
+        return st.one_of(plain, paired).map(lambda ops: {'ops': ops})
 
     def run(self, case):
         info, n = run_history(case, self.cap)
@@ -463,11 +494,11 @@ class Histories(Suite):
 
 
 POOL = ['/a', '/{f}', '/a/{g}', '/a/b', '/{f}/b', '/{f:int}/b', '/{f}-{g}', '/a/{g:path}', '/{f:ab}/{h}', '/x{f}/b',
-        '/{f:int}x{g}', "/it's/{h}", '/a\\b/{h}', '/{f}/{k:path}/x']
+        '/{f:int}x{g}', "/it's/{h}", '/a\\b/{h}', '/{f}/{k:path}/x', '/a/{h}/zz', '/{f}/b/7']
 
 
 class PoolEnum(Suite):
-    """Exhaustive: every ordered selection of <= 2 (quick) / <= 3 (thorough) templates from a 14-template pool (incl.
+    """Exhaustive: every ordered selection of <= 2 (quick) / <= 3 (thorough) templates from a 16-template pool (incl.
     one unacceptable template and literals with quote / backslash) x both compile flags on the last add, all
     representative paths."""
 
